@@ -33,6 +33,7 @@ inductive Err
   | lineTooLong            -- httping.LineTooLong (an HTTPException)
   | tooManyHeaders         -- HTTPException("Too many headers")
   | valueError             -- ValueError (bad chunk size, chunk end garbage, header without ": ", …)
+  | typeError              -- TypeError (chunk extensions: `parms[bytearray] = …` is unhashable)
   | unicodeError           -- UnicodeEncodeError / UnicodeDecodeError
   | badRequestLine | unknownProtocol | badMethod | badStatusLine
   | invalidBody            -- HTTPException("Invalid body, content-length not provided!")
@@ -62,9 +63,13 @@ def titleAux : Bool → Bytes → Bytes
 
 def title (bs : Bytes) : Bytes := titleAux false bs
 
-def lowerC (c : Char) : Char := if 'A' ≤ c ∧ c ≤ 'Z' then Char.ofNat (c.toNat + 32) else c
+/-- `str.lower()` of one character below U+0100 (ASCII and the Latin-1 capitals À–Þ except ×); others unchanged -/
+def lowerC (c : Char) : Char :=
+  if 'A' ≤ c ∧ c ≤ 'Z' then Char.ofNat (c.toNat + 32)
+  else if 192 ≤ c.toNat ∧ c.toNat ≤ 222 ∧ c.toNat ≠ 215 then Char.ofNat (c.toNat + 32)
+  else c
 def upperC (c : Char) : Char := if 'a' ≤ c ∧ c ≤ 'z' then Char.ofNat (c.toNat - 32) else c
-/-- `str.lower()` on text whose cased characters are ASCII (header names, tokens) -/
+/-- `str.lower()` on text below U+0100 (what the parsers decode); `str.upper()` on ASCII -/
 def lower (s : Str) : Str := s.map lowerC
 def upper (s : Str) : Str := s.map upperC
 
@@ -81,7 +86,11 @@ def decodeLatin1 (bs : Bytes) : Str := bs.map Char.ofNat
 
 def utf8 (s : Str) : Bytes := (String.ofList s).toUTF8.toList.map (·.toNat)
 
-def natStr (n : Nat) : Str := (toString n).toList
+/-- `str(n)` for a non-negative `int`: decimal digits -/
+def natStr (n : Nat) : Str :=
+  if _h : n < 10 then [Char.ofNat (48 + n)] else natStr (n / 10) ++ [Char.ofNat (48 + n % 10)]
+termination_by n
+decreasing_by omega
 
 def isWsN (b : Nat) : Bool := b = 32 || b = 9 || b = 10 || b = 13 || b = 11 || b = 12
 
@@ -197,7 +206,6 @@ def parseLeaderAux : Nat → List (Str × Str) → Bytes → Res (List (Str × S
         match splitColonSpace line with
         | none => .fail .valueError       -- `key, value = line.split(': ', 1)` cannot unpack
         | some (k, v) =>
-          if k.any (fun b => b ≥ 128) then .fail .outOfModel else      -- `str.lower()` of non-ASCII names: not modelled
           let headers := loSet headers (decodeLatin1 k) (decodeLatin1 v)
           if headers.length > MAX_HEADERS then .fail .tooManyHeaders
           else parseLeaderAux fuel headers rest
@@ -210,7 +218,7 @@ def hexDigitN (d : Nat) : Nat := if d < 10 then 48 + d else 87 + d
 
 /-- `"{0:x}".format(n)` -/
 def toHex (n : Nat) : Bytes :=
-  if h : n < 16 then [hexDigitN n] else toHex (n / 16) ++ [hexDigitN (n % 16)]
+  if _h : n < 16 then [hexDigitN n] else toHex (n / 16) ++ [hexDigitN (n % 16)]
 termination_by n
 decreasing_by omega
 
@@ -288,7 +296,9 @@ def parseChunk (raw : Bytes) : Res Chunk :=
     match pyIntHex pr.1 with
     | .error e => .fail e
     | .ok size =>
-      let parms := parseExts pr.2.2
+      -- `parms[name.strip()] = …` with a `bytearray` key: every chunk extension raises `TypeError`
+      if !pr.2.2.isEmpty then .fail .typeError else
+      let parms : List (Bytes × Option Bytes) := []
       if size = 0 then
         match parseLeader rest with
         | .need => .need
@@ -449,9 +459,9 @@ def build (S : Std) (r : Requester) : Except Err (Requester × Bytes) :=
             | some fa =>
               let multipart := match odGet r.headers "content-type".toList with
                 | some (.str ct) => startsWith "multipart/form-data".toList ct
-                | some _ => false       -- a bytes/int content-type: `.startswith(str)` raises; not modelled
+                | some _ => true        -- a bytes/int content-type: `.startswith(str)` raises; not modelled (see below)
                 | none => false
-              if multipart then .error .outOfModel     -- random boundary
+              if multipart then .error .outOfModel     -- random boundary (or a non-str content-type)
               else .ok (utf8 (formBody S fa),
                         hset r.headers "content-type".toList (.str "application/x-www-form-urlencoded; charset=utf-8".toList))
             | none => .ok (r.body, r.headers)
@@ -514,7 +524,11 @@ def digitsVal : Str → Nat → Option Nat
 /-- `int(text)` for `ws* [+-]? digit+ ws*`; `none` = `ValueError`; `_` between digits and non-ASCII text
 (Unicode digits and blanks) are outside the model -/
 def pyIntDec (s : Str) : Except Err (Option Int) :=
-  if s.any (fun c => c.toNat ≥ 128) then .error .outOfModel else
+  if s.any (fun c => c.toNat ≥ 128) then
+    -- Unicode digits / blanks could make this a number: outside the model, unless an ASCII character already rules it out
+    (if s.all (fun c => c.toNat ≥ 128 || ('0' ≤ c ∧ c ≤ '9') || c = '+' || c = '-' || c = '_' || isSpaceC c)
+     then .error .outOfModel else .ok none)
+  else
   let t := stripC s
   let (neg, d) := match t with
     | '-' :: r => (true, r)
